@@ -54,7 +54,9 @@ def scenario(draw) -> Dict[str, Any]:
         off = draw(st.one_of(st.sampled_from([0, 1, 100, 199, 200, 201, 219, 220, 221, 440, timeout - 5, timeout - 1, timeout, timeout + 1,
                                               timeout + 50]), st.integers(0, timeout + 100)))
         arrivals.append({'off': max(0, off), 'what': draw(st.sampled_from(['srv', 'txt', 'a', 'aaaa', 'srv+a', 'all', 'a-other-host'])),
-                         'ttl': draw(st.sampled_from([120, 120, 1, 0])), 'idx': draw(st.integers(0, 2))})
+                         'ttl': draw(st.sampled_from([120, 120, 1, 0])), 'idx': draw(st.integers(0, 2)),
+                         # order of the records inside the datagram: SRV, TXT, A, AAAA or the reverse (address records first)
+                         'rev': draw(st.booleans())})
     return {'jitter': draw(st.integers(0, 10**6)), 'timeout': timeout, 'pre': pre, 'arrivals': arrivals,
             'given_server': draw(st.sampled_from([None, None, None, 0, 1])), 'qtype': draw(st.sampled_from([None, None, 'QU', 'QM']))}
 
@@ -179,6 +181,8 @@ class Exec:
             rrs.append(rr_addr(pre['srv_host'], A6[idx % 2], ttl))
         if what == 'a-other-host':
             rrs.append(rr_addr((pre['srv_host'] + 1) % 3, A4[idx % 3], ttl))
+        if a.get('rev'):
+            rrs.reverse()
         self._inject(w, host, rrs, mid)
 
 
